@@ -1,7 +1,12 @@
 #!/usr/bin/env python3
 """Apply /verif/seeded/<ID>/patch.diff to /repo, run the quick check(s), undo the change, and record
 what the checks reported in /verif/seeded/<ID>/meta.json (key `detection`)."""
-import json, os, subprocess, sys
+import json, os, signal, subprocess, sys
+
+def _restore(signum, frame):
+    # a seeded change must never outlive this tool in /repo's working tree (it did once: 993a925)
+    subprocess.run("git checkout -- .", shell=True, cwd="/repo")
+    os._exit(128 + signum)
 
 def main(sid, checks):
     d = f"/verif/seeded/{sid}"
@@ -10,6 +15,8 @@ def main(sid, checks):
     if subprocess.run(["git", "apply", f"{d}/patch.diff"], cwd="/repo").returncode != 0:
         print("patch does not apply"); return 1
     det = {}
+    for s in (signal.SIGTERM, signal.SIGINT, signal.SIGHUP):
+        signal.signal(s, _restore)
     try:
         for c in checks:
             env = dict(os.environ, VERIF_SEED=os.environ.get("VERIF_SEED", "1"))
